@@ -74,6 +74,8 @@ def drive_rational(rng, big):
         if k < 0.2:
             return rng.randint(-5, 5)
         m = 10 ** rng.randint(1, 40) if big else 60
+        if big and rng.random() < 0.15:
+            m = 10 ** rng.randint(100, 700)        # denominators of thousands of bits, as long rational Meek iterations produce
         return Rational(rng.randint(-m, m), rng.randint(1, m))
     a, b, c = rr(), rr(), rr()
     k = rng.random()
